@@ -229,17 +229,24 @@ class ClipSim:
                 m = fresh('mask')
                 ops.append({'op': 'load_mask', 'path': rng.choice(saved_masks), 'mask': m})
                 live_masks.append(m)
+                if rng.random() < 0.8:
+                    # the documented use of a saved mask: another process applies it to another dataset with the same geometry
+                    r, wk = fresh('res'), fresh('work')
+                    ops.append({'op': 'apply', 'mask': m, 'variant': rng.choice([1, 1, 0]), 'work': wk, 'res': r, 'faults': []})
+                    ops.append({'op': 'load', 'res': r, 'faults': []})
+                    live_res.append(r)
             if li > 0 and saved_outs and rng.random() < 0.6:
                 r = fresh('res')
                 ops.append({'op': 'reopen', 'path': rng.choice(saved_outs), 'res': r})
                 live_res.append(r)
             while len(ops) < n_ops:
-                choices = ['clip', 'clip', 'make_mask']
+                choices = ['clip', 'make_mask', 'make_mask'] if not live_res else ['clip', 'make_mask']
                 if live_masks:
-                    choices += ['apply', 'apply', 'apply', 'save_mask']
+                    choices += ['apply', 'apply', 'apply', 'save_mask', 'save_mask']
                 if live_res:
-                    choices += ['load', 'load', 'save', 'save', 'reclip', 'select_res', 'drop_work_early']
-                choices += ['select_world']
+                    choices += ['load', 'load', 'load', 'save', 'save', 'save', 'reclip', 'select_res', 'drop_work_early']
+                if rng.random() < 0.25:
+                    choices += ['select_world']
                 kind = rng.choice(choices)
                 if kind == 'make_mask':
                     m = fresh('mask')
